@@ -18,6 +18,8 @@ static Args A;
 
 using H1 = nop::Handle<TestHandlePolicy<1>>;
 using H7 = nop::Handle<TestHandlePolicy<300>>;  // type tag in the U16 class
+using HN = nop::Handle<NarrowTagHandlePolicy<std::uint16_t, 0x0102>>;  // 16-bit tag type: a wider tag is not even a valid encoding
+using HB = nop::Handle<NarrowTagHandlePolicy<std::uint8_t, 0x21>>;
 
 static std::string shape_of(const Sch& s) {
   static const char* n[] = {"Bool", "UInt", "SInt", "F32", "F64", "Str", "BinVec", "BinArr", "BinLB", "AryVec", "AryFix",
@@ -157,16 +159,21 @@ static void check_transport(const TypeOps& t) {
         refenc(t.sch, w, fe);
         for (auto& f : fe.fields) {
           if (f.role != Role::HandleType) continue;
-          for (uint64_t nv : {f.value + 1, f.value + 256, (uint64_t)0xffffffffffULL, f.value == 0 ? (uint64_t)1 : (uint64_t)0}) {
+          // the tag field's own width (bytes) decides between "another handle type" and "not an encoding of the tag type at all":
+          // tags equal to the expected one modulo 2^8 / 2^16 / 2^32 are among the candidates
+          const int tagw = f.width ? f.width : 8;
+          for (uint64_t nv : std::vector<uint64_t>{f.value + 1, f.value + 256, (uint64_t)0xffffffffffULL, f.value == 0 ? (uint64_t)1 : (uint64_t)0, f.value + (uint64_t)(1ULL << 8),
+                              f.value + (uint64_t)(1ULL << 16), f.value + (uint64_t)(1ULL << 32), f.value + (uint64_t)(0xdeadbeefULL << 32)}) {
             if (nv == f.value) continue;
+            const int want_err = (tagw < 8 && (nv >> (8 * tagw)) != 0) ? (int)nop::ErrorStatus::UnexpectedEncodingType : (int)nop::ErrorStatus::UnexpectedHandleType;
             std::vector<uint8_t> nb = splice(fe.bytes, f.off, f.len, min_uint(nv));
             Obj dst(t);
             ProbeReader pr(nb.data(), nb.size());
             int re = t.probe_read(dst.p, pr);
             R.counters["evaluations"]++;
-            if (re != (int)nop::ErrorStatus::UnexpectedHandleType)
+            if (re != want_err)
               R.viol("C15|handle-type-not-validated|" + shape_of(t.sch), cid + "|tag" + std::to_string(f.off) + ":" + std::to_string(nv),
-                     std::string("handle type tag changed to ") + std::to_string(nv) + ": Read returned " + ename(re) + ", expected UnexpectedHandleType",
+                     std::string("handle type tag changed to ") + std::to_string(nv) + ": Read returned " + ename(re) + ", expected " + ename(want_err),
                      "{\"type\":" + jstr(t.name) + ",\"input\":" + jstr(hex(nb)) + "}");
             else if (!pr.refs.empty() && pr.refs.size() > 0 && pr.log.back().op == 'G')
               R.viol("C15|resolved-despite-wrong-type|" + shape_of(t.sch), cid, "a handle with a mismatched type tag was resolved", det());
@@ -337,6 +344,75 @@ static void check_ownership() {
   }
 }
 
+// ================================================================ C10 over handle-bearing types (--c10)
+// The codec lab's reader/writer rigs have no out-of-band channel, so its fault enumeration never reaches PushHandle / GetHandle.
+// Same oracle here: every primitive call the probe writer / reader sees for a value - handle transfers included, for valid and
+// for EMPTY handles - fails in turn with every error code; the operation must return that code and make no further call.
+static std::string calls_str(const std::vector<Call>& log) { std::string o; for (auto& c : log) o += c.op; return o; }
+static void check_io_faults(const TypeOps& t) {
+  DomainCfg cfg;
+  cfg.big_strings = false;
+  cfg.cap = A.thorough() ? 200 : 60;
+  std::vector<Val> dom = domain(t.sch, cfg, 0);
+  std::vector<int> errs;
+  if (A.thorough()) for (int e = 1; e <= 18; e++) errs.push_back(e);
+  else errs = {1, 4, 12, 13, 14, 16, 18};
+  for (size_t i = 0; i < dom.size(); i++) {
+    Obj src(t, dom[i]);
+    Val w = src.val();
+    ProbeWriter clean;
+    if (t.probe_write(src.p, clean)) continue;  // reported by the transport part
+    auto det = [&] { return "{\"type\":" + jstr(t.name) + ",\"value\":" + vjson(t.sch, w) + ",\"calls\":" + jstr(calls_str(clean.log)) + "}"; };
+    for (size_t k = 0; k < clean.log.size(); k++)
+      for (int e : errs) {
+        std::string cid = "C10|H|" + t.name + "|v" + std::to_string(i) + "|W|call" + std::to_string(k) + "|err" + std::to_string(e);
+        if (!R.want(cid)) continue;
+        ProbeWriter pw;
+        pw.fail_at = (long)k;
+        pw.fail_with = e;
+        int got = t.probe_write(src.p, pw);
+        R.counters["evaluations"]++;
+        R.counters["transitions"]++;
+        if (clean.log[k].op == 'H') R.nontrivial(cid);
+        const std::string opn(1, clean.log[k].op);
+        if (got != e)
+          R.viol("C10|write|" + std::string(got ? "wrong-error" : "success-after-failure") + "|op" + opn + "|" + shape_of(t.sch) + "+Hnd", cid,
+                 "writer call #" + std::to_string(k) + " (" + opn + ") failed with " + ename(e) + " but Write returned " + ename(got), det());
+        else if (pw.log.size() != k + 1)
+          R.viol("C10|write|calls-after-failure|op" + opn + "|" + shape_of(t.sch) + "+Hnd", cid,
+                 std::to_string(pw.log.size() - k - 1) + " further writer calls after call #" + std::to_string(k) + " failed", det());
+        else if (k == 0 && !pw.out.empty())
+          R.viol("C10|write|bytes-after-failed-prepare|" + shape_of(t.sch) + "+Hnd", cid, "Prepare failed but bytes were written", det());
+        else R.outcome("propagated");
+      }
+    Obj d0(t);
+    ProbeReader rclean(clean.out.data(), clean.out.size());
+    if (t.probe_read(d0.p, rclean)) continue;
+    for (size_t k = 0; k < rclean.log.size(); k++)
+      for (int e : errs) {
+        std::string cid = "C10|H|" + t.name + "|v" + std::to_string(i) + "|R|call" + std::to_string(k) + "|err" + std::to_string(e);
+        if (!R.want(cid)) continue;
+        Obj dst(t);
+        ProbeReader pr(clean.out.data(), clean.out.size());
+        pr.fail_at = (long)k;
+        pr.fail_with = e;
+        int got = t.probe_read(dst.p, pr);
+        R.counters["evaluations"]++;
+        R.counters["transitions"]++;
+        if (rclean.log[k].op == 'G') R.nontrivial(cid);
+        const std::string opn(1, rclean.log[k].op);
+        if (got != e)
+          R.viol("C10|read|" + std::string(got ? "wrong-error" : "success-after-failure") + "|op" + opn + "|" + shape_of(t.sch) + "+Hnd", cid,
+                 "reader call #" + std::to_string(k) + " (" + opn + ") failed with " + ename(e) + " but Read returned " + ename(got), det());
+        else if (pr.log.size() != k + 1)
+          R.viol("C10|read|calls-after-failure|op" + opn + "|" + shape_of(t.sch) + "+Hnd", cid,
+                 std::to_string(pr.log.size() - k - 1) + " further reader calls after call #" + std::to_string(k) + " failed", det());
+        else R.outcome("propagated");
+      }
+    R.counters["states"]++;
+  }
+}
+
 int main(int argc, char** argv) {
   A = Args::parse(argc, argv);
   R.only = A.only;
@@ -344,6 +420,9 @@ int main(int argc, char** argv) {
 #ifndef C15_TABLES
   types.push_back(make_ops<H1>());
   types.push_back(make_ops<H7>());
+  types.push_back(make_ops<HN>());
+  types.push_back(make_ops<S2<HB, HN>>());
+  types.push_back(make_ops<std::vector<HN>>());
   types.push_back(make_ops<S2<H1, int32_t>>());
   types.push_back(make_ops<S3<int32_t, H1, H7>>());
   types.push_back(make_ops<std::vector<H1>>());
@@ -368,6 +447,13 @@ int main(int argc, char** argv) {
   types.push_back(make_ops<T2<T2<H1, H1>, std::string>>());
   types.push_back(make_ops<T1<std::vector<T2<H7, std::string>>>>());
 #endif
+  for (auto& r : A.rest)
+    if (r == "--c10") {
+      for (auto& t : types) check_io_faults(t);
+      R.sample("{\"mode\":\"C10 over handle-bearing types: every probe writer/reader call incl. PushHandle/GetHandle fails in turn\"}");
+      R.finish();
+      return R.violations ? 1 : 0;
+    }
   for (auto& t : types) check_transport(t);
 #ifndef C15_TABLES
   check_ownership();
